@@ -105,6 +105,9 @@ def handleRule (rule : String) (kv : List (String × String)) : String :=
     | "plain" => match gc kv "frame", gc kv "extra" with
         | some f, some e => rRw false (plain f p deps e)
         | _, _ => "BAD params"
+    | "plaindict" => match gc kv "frame" with
+        | some f => rRw false (plainDict f p deps)
+        | none => "BAD params"
     | "keyed" => match gc kv "frame", gc kv "keys" with
         | some f, some k => rRw false (keyed f k p deps)
         | _, _ => "BAD params"
